@@ -345,8 +345,12 @@ def run_ops(c):
     # and labels: striped_array_mean asserts global_sum >= local_sum, which presumes non-negative data)
     vals = np.abs(np.random.RandomState(c["seed"]).normal(size=n))
     vals[::3] = np.floor(vals[::3])
+    # the maximum is exercised with data of any sign (all-negative, mixed, shifted), the mean with non-negative data
+    sgn = [1.0, -1.0, 1.0, -1.0][c["seed"] % 4]
+    mvals = sgn * (vals + (c["seed"] % 3)) if c["seed"] % 4 < 2 else np.random.RandomState(c["seed"] + 1).normal(size=n) - (c["seed"] % 5)
     starts = np.concatenate([[0], np.cumsum(lengths)]).astype(int)
     V = [vals[starts[i]:starts[i + 1]] for i in range(len(lengths))]
+    MV = [mvals[starts[i]:starts[i + 1]] for i in range(len(lengths))]
     g = c["frame"] % n
     t = int(np.searchsorted(starts, g, side="right") - 1)
     owner = t % size
@@ -356,7 +360,7 @@ def run_ops(c):
         lv = np.concatenate(V[rank::size])
         out = {}
         out["lengths"] = ops.assemble_striped_array(lengths[rank::size].copy())
-        out["max"] = ops.striped_array_max(lv)
+        out["max"] = ops.striped_array_max(np.concatenate(MV[rank::size]))
         out["mean"] = ops.striped_array_mean(lv)
         out["ragged"] = ops.assemble_striped_ragged_array(lv.copy(), lengths)
         loc = local_of(trajs, rank, size)
@@ -375,7 +379,7 @@ def run_ops(c):
     for rank, o in enumerate(res):
         require(np.array_equal(np.asarray(o["lengths"]), lengths), "assemble_striped_array != serial lengths", rank=rank,
                 got=np.asarray(o["lengths"]).tolist(), want=lengths.tolist())
-        require(o["max"] == vals.max(), "striped_array_max != serial max", rank=rank, got=o["max"], want=vals.max())
+        require(o["max"] == mvals.max(), "striped_array_max != serial max", rank=rank, got=o["max"], want=mvals.max())
         require(abs(o["mean"] - vals.mean()) <= 1e-12 * (1 + abs(vals.mean())), "striped_array_mean != serial mean",
                 rank=rank, got=o["mean"], want=vals.mean())
         require(np.array_equal(np.asarray(o["ragged"]), vals), "assemble_striped_ragged_array != serial order", rank=rank,
@@ -385,7 +389,7 @@ def run_ops(c):
         require(o["conv"] == [int(x) for x in want_conv], "convert_local_indices != serial global index", rank=rank,
                 got=o["conv"], want=[int(x) for x in want_conv])
     nt = size >= 2 and len(set(c["lengths"])) > 1
-    return Info(nt, classes(c, w))
+    return Info(nt, classes(c, w, ["max_data=%s" % ("all_negative" if mvals.max() < 0 else "has_positive")]))
 
 
 class _Seq(np.random.RandomState):
@@ -458,8 +462,9 @@ def run_io(c):
     try:
         if c["kind"] == "npy":
             files = []
+            tags = np.random.RandomState(c["data_seed"]).permutation(len(trajs) + 3)   # list order != sorted order
             for i, t in enumerate(trajs):
-                f = os.path.join(d, "t%03d.npy" % i)
+                f = os.path.join(d, "run_%d.npy" % (int(tags[i]) * 7))
                 np.save(f, t)
                 files.append(f)
 
